@@ -323,60 +323,98 @@ func (s *safety) rng(v ssa.Value, depth int) (lo, hi int64, ok bool) {
 	return typeRange(v.Type())
 }
 
-// phiLower: lower bound of an induction-like φ (all inputs are constants,
-// other bounded φs, or an input plus a non-negative constant).
+// phiLower: lower bound of an induction-like φ: every input is a constant,
+// another bounded φ, or the φ itself plus something that is never negative in
+// sum (φ+1; φ + IndexFunc(..) + 1, the search result being at least -1).
 func (s *safety) phiLower(phi *ssa.Phi, seen map[*ssa.Phi]bool) (int64, bool) {
+	lo, rel, ok := s.phiLowerRel(phi, seen)
+	if !ok || rel {
+		return lo, ok && !rel
+	}
+	return lo, true
+}
+
+func (s *safety) phiLowerRel(phi *ssa.Phi, seen map[*ssa.Phi]bool) (lo int64, rel, ok bool) {
 	if seen[phi] {
-		return 1 << 62, true
+		// relative to a φ under evaluation: "that φ + 0"
+		return 0, true, true
 	}
 	seen[phi] = true
-	lo := int64(1 << 62)
+	lo = int64(1 << 62)
 	for _, e := range phi.Edges {
-		l, ok := s.valLower(e, seen)
+		l, r, ok := s.valLowerRel(e, seen)
 		if !ok {
-			return 0, false
+			return 0, false, false
+		}
+		if r {
+			// carried round: harmless when it does not go down
+			if l < 0 {
+				return 0, false, false
+			}
+			continue
 		}
 		if l < lo {
 			lo = l
 		}
 	}
-	return lo, true
+	return lo, false, true
 }
 
 func (s *safety) valLower(v ssa.Value, seen map[*ssa.Phi]bool) (int64, bool) {
+	lo, rel, ok := s.valLowerRel(v, seen)
+	if !ok {
+		return 0, false
+	}
+	if rel {
+		// relative to an enclosing φ that is still being evaluated: callers
+		// that only need "not below that φ" see a large bound, as before
+		if lo >= 0 {
+			return 1 << 62, true
+		}
+		return 0, false
+	}
+	return lo, true
+}
+
+// valLowerRel: a lower bound of v, either absolute (rel false) or relative to
+// a φ under evaluation (rel true: v >= that φ + lo).
+func (s *safety) valLowerRel(v ssa.Value, seen map[*ssa.Phi]bool) (lo int64, rel, ok bool) {
 	switch x := v.(type) {
 	case *ssa.Const:
 		if x.Value != nil && x.Value.Kind() == constant.Int {
-			return x.Int64(), true
+			return x.Int64(), false, true
 		}
 	case *ssa.Phi:
-		return s.phiLower(x, seen)
+		return s.phiLowerRel(x, seen)
 	case *ssa.BinOp:
 		if x.Op == token.ADD {
-			if c, ok := x.Y.(*ssa.Const); ok && c.Value != nil && c.Int64() >= 0 {
-				l, ok := s.valLower(x.X, seen)
-				if ok && l < 1<<61 {
-					return l + c.Int64(), true
+			lx, rx, okx := s.valLowerRel(x.X, seen)
+			ly, ry, oky := s.valLowerRel(x.Y, seen)
+			if okx && oky && !(rx && ry) && lx < 1<<61 && ly < 1<<61 && lx > -(1<<40) && ly > -(1<<40) {
+				return lx + ly, rx || ry, true
+			}
+			if okx && oky && !(rx && ry) {
+				// one side unbounded above (1<<62 stands for "no constraint")
+				if lx >= 1<<61 && ly >= 0 || ly >= 1<<61 && lx >= 0 {
+					return 1 << 62, rx || ry, true
 				}
-				return l, ok
 			}
-			// a sum of two values with known lower bounds (1 + len(x))
-			lx, okx := s.valLower(x.X, seen)
-			ly, oky := s.valLower(x.Y, seen)
-			if okx && oky && lx >= 0 && ly >= 0 && lx < 1<<61 && ly < 1<<61 {
-				return lx + ly, true
-			}
+		}
+	case *ssa.Call:
+		switch s.p.X(x).Name {
+		case "slices.IndexFunc", "slices.Index", "bytes.IndexByte", "bytes.Index", "strings.IndexByte", "strings.Index":
+			return -1, false, true
 		}
 	}
 	if l, _, ok := typeRange(v.Type()); ok && l >= 0 {
-		return 0, true
+		return 0, false, true
 	}
 	if c, ok := v.(*ssa.Call); ok {
 		if bi, ok := c.Call.Value.(*ssa.Builtin); ok && (bi.Name() == "len" || bi.Name() == "cap" || bi.Name() == "copy") {
-			return 0, true
+			return 0, false, true
 		}
 	}
-	return 0, false
+	return 0, false, false
 }
 
 // toLin translates an integer SSA value; facts about introduced atoms are
@@ -588,9 +626,10 @@ func (s *safety) lenLin(x ssa.Value, facts *[]ineq, depth int) lin {
 }
 
 // localFieldStore: ld reads field f of a local struct variable; returns the
-// store to that same field that precedes it in its block when nothing in
-// between can have changed the field (no call that is given the variable's
-// address, no store to the whole variable or to that field).
+// store to that same field that reaches it: one that comes before the load on
+// every way (same block earlier, or a dominating block) with nothing in
+// between that can have changed the field (no other store to it or to the
+// whole variable, no call that is given the variable's or the field's address).
 func localFieldStore(ld *ssa.UnOp) *ssa.Store {
 	if ld.Op != token.MUL {
 		return nil
@@ -603,39 +642,109 @@ func localFieldStore(ld *ssa.UnOp) *ssa.Store {
 	if !ok {
 		return nil
 	}
-	// the variable's address is only used to select fields, to load or store
-	// it whole, or as a method receiver / argument of calls (checked below)
-	instrs := ld.Block().Instrs
-	at := -1
-	for i, in := range instrs {
-		if in == ssa.Instruction(ld) {
-			at = i
-		}
-	}
-	for i := at - 1; i >= 0; i-- {
-		switch x := instrs[i].(type) {
+	var stores []*ssa.Store
+	var killers []ssa.Instruction
+	for _, ref := range *al.Referrers() {
+		switch r := ref.(type) {
+		case *ssa.FieldAddr:
+			for _, r2 := range *r.Referrers() {
+				switch u := r2.(type) {
+				case *ssa.Store:
+					if u.Addr == ssa.Value(r) && r.Field == fa.Field {
+						stores = append(stores, u)
+						killers = append(killers, u)
+					} else if u.Addr != ssa.Value(r) {
+						return nil // the field's address stored somewhere
+					}
+				case *ssa.UnOp, *ssa.DebugRef, *ssa.FieldAddr, *ssa.IndexAddr:
+				case ssa.CallInstruction:
+					if r.Field == fa.Field {
+						killers = append(killers, u)
+					}
+				default:
+					if r.Field == fa.Field {
+						return nil
+					}
+				}
+			}
 		case *ssa.Store:
-			if f2, ok := x.Addr.(*ssa.FieldAddr); ok && f2.X == ssa.Value(al) && f2.Field == fa.Field {
-				return x
-			}
-			if x.Addr == ssa.Value(al) {
+			if r.Addr != ssa.Value(al) {
 				return nil
 			}
+			killers = append(killers, r)
+		case *ssa.UnOp, *ssa.DebugRef:
 		case ssa.CallInstruction:
-			for _, a := range x.Common().Args {
-				if a == ssa.Value(al) {
-					return nil
+			killers = append(killers, r)
+		case *ssa.MakeClosure:
+			// captured by a literal that only reads through it (a sort's less function)
+			fn, _ := r.Fn.(*ssa.Function)
+			for i, bv := range r.Bindings {
+				if bv != ssa.Value(al) {
+					continue
 				}
-				if f2, ok := a.(*ssa.FieldAddr); ok && f2.X == ssa.Value(al) && f2.Field == fa.Field {
+				if fn == nil || i >= len(fn.FreeVars) || !onlyReadsThrough(fn.FreeVars[i], 0) {
 					return nil
 				}
 			}
-			if x.Common().IsInvoke() && x.Common().Value == ssa.Value(al) {
-				return nil
-			}
+		default:
+			return nil // converted, stored somewhere, ...
 		}
 	}
-	return nil
+	var best *ssa.Store
+	for _, st := range stores {
+		if !(st.Block() == ld.Block() && core.Before(st, ld) || st.Block() != ld.Block() && st.Block().Dominates(ld.Block())) {
+			continue
+		}
+		clean := true
+		for _, k := range killers {
+			if k == ssa.Instruction(st) {
+				continue
+			}
+			if core.MayFollow(st, k) && core.MayFollow(k, ld) {
+				clean = false
+			}
+		}
+		if clean {
+			best = st
+		}
+	}
+	return best
+}
+
+// onlyReadsThrough: the pointer is used only to load through it (fields,
+// elements), here and in literals it is handed on to.
+func onlyReadsThrough(ptr ssa.Value, depth int) bool {
+	refs := ptr.Referrers()
+	if refs == nil || depth > 6 {
+		return false
+	}
+	for _, ref := range *refs {
+		switch r := ref.(type) {
+		case *ssa.UnOp:
+			if r.Op != token.MUL {
+				return false
+			}
+		case *ssa.FieldAddr:
+			if !onlyReadsThrough(r, depth+1) {
+				return false
+			}
+		case *ssa.IndexAddr:
+			if r.X != ptr || !onlyReadsThrough(r, depth+1) {
+				return false
+			}
+		case *ssa.MakeClosure:
+			fn, _ := r.Fn.(*ssa.Function)
+			for i, bv := range r.Bindings {
+				if bv == ptr && (fn == nil || i >= len(fn.FreeVars) || !onlyReadsThrough(fn.FreeVars[i], depth+1)) {
+					return false
+				}
+			}
+		case *ssa.DebugRef:
+		default:
+			return false
+		}
+	}
+	return true
 }
 
 func (s *safety) lenAtom(x ssa.Value, facts *[]ineq) lin {
@@ -1763,6 +1872,13 @@ func (s *safety) idiomSafe(in ssa.Instruction) (bool, string) {
 					for _, g := range core.EdgeGuards(pred, ph.Block()) {
 						if bo, ok := g.Cond.(*ssa.BinOp); ok && bo.X == ssa.Value(x) && isZeroConst(bo.Y) && (bo.Op == token.LSS && !g.Pol || bo.Op == token.GEQ && g.Pol) {
 							nonNeg = true
+						}
+						// however the comparison is written (0 > p, p <= -1, ...)
+						f := s.p.FactOf(g)
+						if f.R != nil && f.L.Val == ssa.Value(x) {
+							if k, isK := f.R.ConstInt(); isK && (f.Op == ">=" && k >= 0 || f.Op == ">" && k >= -1 || f.Op == "==" && k >= 0) {
+								nonNeg = true
+							}
 						}
 					}
 					if a0, ok := x.Call.Args[0].(*ssa.UnOp); ok {
